@@ -19,9 +19,14 @@ def records(ctx):
     n = 60 if ctx.quick else 500
     dims = {1: 14, 2: 6, 3: 4, 4: 3, 5: 2}
     for k in range(n):
-        ndim = rng.choice([1, 2, 2, 3, 3, 4, 5])
+        ndim = [1, 2, 3, 4, 5, 2, 3][k % 7]          # every dimension count
         sh = rand_shape(rng, ndim, 1, dims[ndim])
-        fs = rand_spectrum(rng, sh, folded=False, labels=rand_labels(rng, ndim))
+        if k % 4 == 1:                                  # even and odd total sample size, deterministically
+            sh[0] += (sum(x - 1 for x in sh) % 2)
+        elif k % 4 == 3:
+            sh[0] += 1 - (sum(x - 1 for x in sh) % 2)
+        fs = rand_spectrum(rng, sh, folded=False, labels=rand_labels(rng, ndim),
+                           mask_mode=['none', 'corners', 'random', 'single', 'random'][k % 5])
         add('fold', {'s': enc(fs)}, observe(lambda: fs.fold()), 'Spectrum.fold')
         add('fold_mirror', {'s': enc(fs)}, observe(lambda: dadi.Spectrum(Numerics.reverse_array(fs), mask_corners=False).fold()), 'Spectrum.fold')
         add('fuf', {'s': enc(fs)}, observe(lambda: fs.fold().unfold().fold()), 'Spectrum.unfold')
@@ -30,7 +35,7 @@ def records(ctx):
         if k % 7 == 0:
             add('fold', {'s': enc(ff)}, observe(lambda: ff.fold()), 'Spectrum.fold')
             add('unfold', {'s': enc(fs)}, observe(lambda: fs.unfold()), 'Spectrum.unfold')
-        p = rng.choice([0.0, 1.0, 0.5, rng.random(), rng.random() * 0.1])
+        p = [0.0, 1.0, 0.5, rng.random(), rng.random() * 0.1][k % 5]
         add('misid', {'s': enc(fs), 'p': common.rat(p)}, observe(lambda: Numerics.apply_anc_state_misid(fs, p)), 'Numerics.apply_anc_state_misid')
         if k % 5 == 0:
             g = Numerics.make_anc_state_misid_func(lambda params, ns, pts: fs * params[0])
